@@ -50,6 +50,13 @@ CLAIMED = {
         "note": "Trusted: the reference model in props/c25.py (about 60 lines) as the statement of documented cache behaviour; it is compared only through observables, never private fields. Held-clock rewrites accept either version until the next change. Multi-directory search paths and ChoiceLoader shadowing are outside the property's quantifier and not covered.",
         "design": "DESIGN.md §4 C25, §3.5",
     },
+    "C27": {
+        "level": "fault_enumeration",
+        "technique": "deterministic simulation with fault injection: in-memory file system / memcached, 2-3 simulated processes interleaved at syscall events, enumeration of crash points, power-loss truncations, I/O errors and entry damage per sampled history; differential oracle vs cache-less compile",
+        "text": "Per sampled history of loads, source changes, clears, restarts and syncs by 2-3 simulated processes sharing one cache directory (or memcached), the clean run numbers every syscall event; then every crash point (before/after each event), power loss after each event (per-file prefix truncation, renames persisted or undone), every error kind at every event, every truncation offset of every stored entry, foreign-magic / other-version / garbage / empty / stale / foreign-code entries and memcached client faults are injected (thorough: all positions; quick: a seeded sample with every kind represented), plus two-fault combinations. Every load must render exactly what a cache-less environment of the same configuration renders and must not raise, except the injected error object itself in the load it was injected into. Histories are sampled; fault positions within a history are enumerated.",
+        "note": "Trusted: SimFS's POSIX model (atomic rename, unlink semantics, no-fsync durability), process death = no further file-system call; the cache-less compile of the same code as reference. Known finding KF-C27-1 (configuration not part of key/checksum) is matched only by a structured classifier: the load read an entry written under another configuration and the observed behaviour equals executing that configuration's code in the reader environment; same-config runs get no tolerance.",
+        "design": "DESIGN.md §4 C27, §3.5",
+    },
 }
 
 PENDING_REASON = "check not built yet in this session (planned as a simulation check, DESIGN.md §4); not claimed until it exists"
